@@ -154,6 +154,53 @@ Proof.
     apply Frame_upd. intro; apply fm_unreg.
 Qed.
 
+Lemma remove_module_post X c : ~ In c X -> forall s0, RegInvX X s0 ->
+  match remove_module_with cfg rec c s0 with
+  | Ok _ s' => RegInvX X s' /\ Frame s0 s' /\ m_reg (find_mod c (mods s')) = false
+  | Crash e _ => e = XFuel
+  end.
+Proof.
+  intros HcX s0 H0. unfold remove_module_with. unfold bind at 1. unfold get.
+  destruct (m_reg (find_mod c (mods s0))) eqn:Hreg; cbn [negb].
+  2:{ simpl. split; [exact H0|]. split; [apply Frame_refl|exact Hreg]. }
+  (* registered and not in flight: open *)
+  assert (Hopen : m_closed (find_mod c (mods s0)) = false).
+  { destruct (m_closed (find_mod c (mods s0))) eqn:E; [|reflexivity]. exfalso. apply HcX.
+    pose proof (find_mod_reg_In c _ Hreg) as [Hi Hcc]. rewrite <- Hcc. apply (ro_flight _ _ _ _ _ H0 _ Hi Hreg E). }
+  assert (Hpos : 0 <= c).
+  { pose proof (find_mod_reg_In c _ Hreg) as [Hi Hcc]. rewrite <- Hcc. apply (ro_pos _ _ _ _ _ H0 _ Hi). }
+  (* run the three modifies symbolically *)
+  set (s1 := with_subs s0 (drop_subs c (m_subs (find_mod c (mods s0))) (subs s0))).
+  set (s2 := with_loggers s1 (zremove c (loggers s1))).
+  set (s3 := with_mods s2 (upd_mod c mm_close (mods s2))).
+  assert (H1 : RegInvX X s1) by (apply reg_ok_drop_subs; exact H0).
+  assert (H2 : RegInvX X s2) by (apply reg_ok_drop_logger; exact H1).
+  assert (H3 : RegInvX (c :: X) s3).
+  { unfold RegInvX, s3. simpl. apply reg_ok_close; auto.
+    - intros t. apply (drop_subs_gone _ _ _ _ _ c H0 t).
+    - simpl. intro Hin. apply zremove_In in Hin. tauto. }
+  assert (F03 : Frame s0 s3).
+  { eapply Frame_trans; [apply Frame_drop_subs|]. eapply Frame_trans; [apply Frame_drop_logger|].
+    apply Frame_upd. intro; apply fm_close. }
+  change (match (mlog_with cfg rec 10 ;;; (s1' <- get ;; send_mgr_with rec MT_CLIENT_CLOSED SZ_CLIENT_CLOSED
+                   (client_payload true (find_mod c (mods s1'))) ;;;
+                 (s2' <- get ;; if m_reg (find_mod c (mods s2')) then set_mod c mm_unreg else crash XKeyError))) s3
+          with Ok _ s' => RegInvX X s' /\ Frame s0 s' /\ m_reg (find_mod c (mods s')) = false | Crash e _ => e = XFuel end).
+  unfold bind at 1. pose proof (J_mlog (c :: X) 10 s3 H3) as Hl.
+  destruct (mlog_with cfg rec 10 s3) as [u s4|e s4]; [|exact Hl]. destruct Hl as [H4 F34].
+  unfold bind at 1. unfold get. unfold bind at 1.
+  pose proof (J_send_mgr (c :: X) MT_CLIENT_CLOSED SZ_CLIENT_CLOSED (client_payload true (find_mod c (mods s4))) s4 H4) as Hc.
+  destruct (send_mgr_with rec MT_CLIENT_CLOSED SZ_CLIENT_CLOSED (client_payload true (find_mod c (mods s4))) s4) as [u' s5|e s5]; [|exact Hc].
+  destruct Hc as [H5 F45]. unfold bind at 1. unfold get.
+  destruct (ro_xreg _ _ _ _ _ H5 c (or_introl eq_refl)) as [Hr5 Hc5]. rewrite Hr5.
+  unfold set_mod, modify. split; [|split].
+  - unfold RegInvX. simpl. apply reg_ok_unreg; auto.
+  - eapply Frame_trans; [exact F03|]. eapply Frame_trans; [exact F34|]. eapply Frame_trans; [exact F45|].
+    apply Frame_upd. intro; apply fm_unreg.
+  - simpl. rewrite find_upd_same; [|intro; reflexivity|exact Hpos].
+    rewrite (find_mod_conn_of_reg _ _ Hr5), Z.eqb_refl. reflexivity.
+Qed.
+
 Lemma J_on_conn_err X c hh : ~ In c X -> J X (on_conn_err_with cfg rec c hh).
 Proof.
   intros H. unfold on_conn_err_with. apply J_bind; [apply J_remove_module; exact H|]. intros _.
